@@ -5,6 +5,7 @@ import PsV.Proofs.FitsBridge
 import PsV.Proofs.FitsLayout
 import PsV.Proofs.FitsBits
 import PsV.Proofs.FitsAccepted
+import PsV.Proofs.FitsWriteKey
 /-!
 # C06 — FITS serialisation round-trips every table exactly, in the documented layout
 
@@ -395,6 +396,16 @@ theorem accepted_storable (E : Ext) (t : Table) (h : Accepted E t) : Storable t 
     h.extents_len, h.periods_len, h.aux_storable⟩, h.dims, h.encodable⟩
 
 example (E : Ext) : Accepted E exAccepted := exAccepted_ok E
+
+/-- The aux hypothesis of `Accepted` is what `splinetable::write_key` lets through: every standard-keyword entry the
+    model of `write_key` accepts (`PsV.Aux.validate`, the definition the C16 driver runs against the real `write_key`,
+    constants regenerated from the source) satisfies `WriteKeyOK`.  So an aux store built through the public API is
+    covered as soon as it holds no `EXTNAME` / `HDUNAME` / `HIERARCH` key (and no long, HIERARCH-convention key: C16). -/
+theorem write_key_entries_accepted (key val : Str) (hv : Aux.validate key val = none) (h8 : key.length ≤ 8) :
+    WriteKeyOK key val :=
+  writeKeyOK_of_validate key val hv h8
+
+example : Aux.validate "REMARK".toList "it's ''".toList = none ∧ "REMARK".toList.length ≤ 8 := by decide
 
 /-- **C06 for every accepted table, end to end**: the bytes in the documented layout are what the encoder writes;
     they decode to the store `write_fits_core` built; the repaired reader reads that store as a table with every field
